@@ -81,3 +81,53 @@ func (p *Path) newMemFS(strict bool) Value {
 	t := types.NewPointer(p.eng.namedType(vfsPkg, "MemFS"))
 	return &NativeObj{Kind: "vfs.MemFS", T: t, Data: newFSModel(strict)}
 }
+
+// snappy: the compressor inside snapshotFile is replaced by an identity byte
+// pipe (compression kernels are not encodable; declined in DESIGN §5).
+const snappyPkg = "github.com/klauspost/compress/snappy"
+
+func (p *Path) callMethod(recv Value, name string, args ...Value) Value {
+	itf, ok := recv.(Iface)
+	if !ok || itf.T == nil {
+		panic(unsupported{"method call on nil/non-interface value in a model"})
+	}
+	if no, ok := itf.V.(*NativeObj); ok && no.Methods != nil {
+		if f, ok := no.Methods[name]; ok {
+			return f.F(p, p.cur, append([]Value{itf.V}, args...))
+		}
+	}
+	f := p.eng.lookupMethod(itf.T, name)
+	if f == nil {
+		panic(unsupported{fmt.Sprintf("%s has no method %s", itf.T, name)})
+	}
+	return p.callSSA(nil, f, append([]Value{itf.V}, args...), nil)
+}
+
+func init() {
+	for _, ctor := range []string{"NewBufferedWriter", "NewWriter"} {
+		reg(snappyPkg+"."+ctor, func(p *Path, _ *frame, a []Value) Value {
+			return &NativeObj{Kind: "snappy.Writer", T: types.NewPointer(p.eng.namedType(snappyPkg, "Writer")), Data: a[0]}
+		})
+	}
+	reg(snappyPkg+".NewReader", func(p *Path, _ *frame, a []Value) Value {
+		return &NativeObj{Kind: "snappy.Reader", T: types.NewPointer(p.eng.namedType(snappyPkg, "Reader")), Data: a[0]}
+	})
+	W := "(*github.com/klauspost/compress/s2.Writer)."
+	reg(W+"Write", func(p *Path, _ *frame, a []Value) Value {
+		return p.callMethod(pData[Value](p, a[0], "snappy.Writer"), "Write", a[1])
+	})
+	reg(W+"Flush", func(p *Path, _ *frame, a []Value) Value { return Iface{} })
+	reg(W+"Close", func(p *Path, _ *frame, a []Value) Value { return Iface{} })
+	reg(W+"Reset", func(p *Path, _ *frame, a []Value) Value {
+		a[0].(*NativeObj).Data = a[1]
+		return nil
+	})
+	R := "(*github.com/klauspost/compress/s2.Reader)."
+	reg(R+"Read", func(p *Path, _ *frame, a []Value) Value {
+		return p.callMethod(pData[Value](p, a[0], "snappy.Reader"), "Read", a[1])
+	})
+	reg(R+"Reset", func(p *Path, _ *frame, a []Value) Value {
+		a[0].(*NativeObj).Data = a[1]
+		return nil
+	})
+}
